@@ -79,6 +79,7 @@ def wallet_history(job):
     reports = []        # outputs ever reported to the wallet: [txid, n, value, key_id, address]
     stored = []         # txids of stored (sent) transactions
     unsent = []         # WalletTransaction objects created but not broadcast
+    spent_outpoints = []    # (txid, n, value) of outputs spent by transactions this wallet has sent
     fake = [0]
 
     def newtxid():
@@ -142,7 +143,8 @@ def wallet_history(job):
         inkeys = []
         nchange = rng.choice([1, 1, 0, 2, 3])
         total = sum(u['value'] for u in spendable)
-        q = {'fee': fee if isinstance(fee, int) else -1, 'minconf': minconf, 'inkeys': inkeys, 'sweep': kind_ == 'sweep',
+        explicit = []
+        q = {'fee': fee if isinstance(fee, int) else -1, 'minconf': minconf, 'inkeys': inkeys, 'sweep': kind_ == 'sweep', 'explicit': explicit,
              'feemin': net.fee_min if net.fee_min < 2000000 else 0, 'feemax': net.fee_max if net.fee_max < 2000000 else 0}
         t = None
         err = None
@@ -160,6 +162,26 @@ def wallet_history(job):
                 recips = [(to, amount)]
                 t = w.send_to(to, amount, input_key_id=inkeys[0] if inkeys else None, fee=fee, min_confirms=minconf,
                               broadcast=broadcast, number_of_change_outputs=nchange)
+            elif kind_ == 'send_inputs':
+                # explicit input list: some unspent outputs of the wallet, sometimes with an output the wallet has already
+                # spent or with the same outpoint twice (min_confirms is documented as ignored for explicit inputs)
+                pool = [(u['txid'], u['output_n'], u['value']) for u in spendable]
+                rng.shuffle(pool)
+                arr = pool[:rng.choice([1, 1, 2, 3])]
+                mode = rng.random()
+                if mode < 0.25 and spent_outpoints:
+                    arr.append(rng.choice(spent_outpoints))
+                elif mode < 0.40 and arr:
+                    arr.append(arr[0])
+                rng.shuffle(arr)
+                explicit.extend([[txnum(table, a[0]), a[1]] for a in arr])
+                q['minconf'] = minconf = 0
+                have = sum(a[2] for a in arr)
+                amount = rng.choice([600, 20000, max(1000, have // 2), max(1000, have - 3000), have + 5000])
+                recips = [(rng.choice(EXT), amount)]
+                if not arr:
+                    raise WalletError('driver: nothing to list')
+                t = w.send(recips, input_arr=[(a[0], a[1]) for a in arr], fee=fee, broadcast=broadcast, number_of_change_outputs=nchange)
             elif kind_ == 'send':
                 n = rng.randrange(2, 4)
                 recips = []
@@ -181,7 +203,8 @@ def wallet_history(job):
         ev = {'op': 'tx', 'q': q, 'created': False, 'stored': False, 'tnum': 0, 'kind': kind_,
               'x': {'ins': [], 'outs': [], 'fee': 0, 'vsize': 0}}
         text = '%s(%s, fee=%r, min_confirms=%d, broadcast=%s, change_outputs=%d%s)' % (
-            kind_, [(a[:8], v) for a, v in recips], fee, minconf, broadcast, nchange, (', input_key_id=%s' % inkeys) if inkeys else '')
+            kind_, [(a[:8], v) for a, v in recips], fee, minconf, broadcast, nchange, ((', input_key_id=%s' % inkeys) if inkeys else '') +
+            ((', input_arr=%s' % ['tx%d:%d' % (a, b) for a, b in explicit]) if explicit else ''))
         if t is not None and err is None:
             ev['created'] = True
             ev['x'] = txresult(t, recips)
@@ -192,6 +215,7 @@ def wallet_history(job):
                 ev['stored'] = True
                 ev['tnum'] = txnum(table, t.txid)
                 stored.append(t.txid)
+                spent_outpoints.extend((i.prev_txid.hex(), i.output_n_int, int(i.value)) for i in t.inputs)
                 ev['raw'] = t.raw_hex()
             elif not broadcast and kind_ != 'sweep' and (rng.random() < 0.35 or force[0] == 'spend_most_unsent'):
                 unsent.append((t, recips))
@@ -279,7 +303,7 @@ def wallet_history(job):
                 record({'op': 'utxos_update', 'rescan': rescan, 'rep': [[txnum(table, x[0]), x[1], x[2], x[3], x[5]] for x in sub]},
                        'utxos_update(%d reported outputs, rescan_all=%s)' % (len(sub), rescan))
             elif r < 0.74:
-                do_tx(rng.choice(['send_to', 'send_to', 'send', 'sweep']))
+                do_tx(rng.choice(['send_to', 'send_to', 'send', 'sweep', 'send_inputs']))
             elif r < 0.80 and (stored or reports):
                 # a sent transaction, or (less often) a funding transaction whose outputs may be reported again later
                 funding = sorted(x for x in {y[0] for y in reports} if w.transaction(x) is not None)
